@@ -342,6 +342,7 @@ def classify(kind, mode, comp, obs_val, regs, d, verdict):
 
 
 def end_to_end(ctx):
+    found = []      # (signature, kind, what, replay) of every oracle disagreement
     quick = not ctx.thorough()
     n_per_mode = 110 if quick else 2500
     cases = gen_cases(ctx, n_per_mode)
@@ -384,8 +385,12 @@ def end_to_end(ctx):
             hi = 0xffffffff if idx == len(vals) - 1 else 0xffff
             if not (isinstance(v, int) and not isinstance(v, bool) and 0 <= v <= hi):
                 comp = 4 if idx == len(vals) - 1 else (idx if o[0] == 'color' else 'power')
-                ctx.counterexample(classify(ob['kind'], mode, comp, v if isinstance(v, int) else None, color, d, None).replace('not-nearest', 'not-an-integer-in-range'),
-                                   '%s in %s units hands the light %r' % (ob['kind'], mode, v), {'script': ob['script'], 'world': ob['world'], 'kind': ob['kind']})
+                cname = ['hue', 'saturation', 'brightness', 'kelvin', 'duration'][comp] if isinstance(comp, int) else comp
+                sig = 'C07/%s-%s-%s-out-of-range' % (ob['kind'], mode, cname)
+                found.append((sig, ob, '%s in %s units with registers %r duration %r hands the light %r: not an integer the protocol can carry'
+                              % (ob['kind'], mode, color, d, o),
+                              {'script': ob['script'], 'world': ob['world'], 'kind': ob['kind'], 'mode': mode,
+                               'observed': [list(o[1]), o[2]] if o[0] == 'color' else [o[1], o[2]]}))
 
     # oracle: the specification judges each distinct observation
     mi = {'logical': 0, 'raw': 1, 'rgb': 2}
@@ -417,10 +422,11 @@ def end_to_end(ctx):
             sig = classify(ob['kind'], mode, comp, obs_val, color, d, v)
             if ob['kind'] == 'matrix' and sig.endswith('not-nearest'):
                 sig = 'C07/matrix-cell-rounded-before-conversion' if prerounded_explains(mode, color, k[3]) else sig
-            ctx.counterexample(sig, '%s in %s units with registers %r duration %r hands the light colour %r duration %r; verdict per integer %s (= nearest, ~ within 1e-9 of a tie, ! wrong)'
+            found.append((sig, ob, '%s in %s units with registers %r duration %r hands the light colour %r duration %r; verdict per integer %s (= nearest, ~ within 1e-9 of a tie, ! wrong)'
                                % (ob['kind'], mode, color, d, list(k[3]), k[4], v),
-                               {'script': minimal(worlds, ob), 'world': ob['world'], 'kind': ob['kind'], 'mode': mode, 'registers': [repr(x) for x in color],
-                                'duration': repr(d), 'observed': [list(k[3]), k[4]], 'verdict': v})
+                               {'script': ob['script'], 'world': ob['world'], 'kind': ob['kind'], 'mode': mode, 'registers': [repr(x) for x in color],
+                                'duration': repr(d), 'observed': [list(k[3]), k[4]], 'verdict': v,
+                                'kinds': sorted({o['kind'] for o in color_keys[k]})}))
     pkeys = list(power_keys)
     rendered = ['(%d, %s, %s, %s, %s)' % (mi[k[0]], coq_f(k[1]), common.coq_bool(k[2]), common.coq_z(int(k[3])), common.coq_z(int(k[4]))) for k in pkeys]
     verdicts = U.coq_eval('c07pow', SPEC_IMPORT, 'spec_power_cases', rendered, per_file=400)
@@ -433,11 +439,13 @@ def end_to_end(ctx):
             mode, color, d, t = cases[ob['ci']]
             comp = 'power' if v[0] == '!' else 4
             sig = classify(ob['kind'], mode, comp, k[3] if comp == 'power' else k[4], color, d, v)
-            ctx.counterexample(sig, '`%s` in %s units with duration %r hands the light power %r duration %r (expected duration %s ms); verdict %s'
+            found.append((sig, ob, '`%s` in %s units with duration %r hands the light power %r duration %r (expected duration %s ms); verdict %s'
                                % (U.command_text(ob['kind'], ob['on']), mode, d, k[3], k[4],
                                   'the same number of' if mode == 'raw' else 'seconds*1000 =', v),
-                               {'script': minimal(worlds, ob), 'world': ob['world'], 'kind': ob['kind'], 'mode': mode, 'duration': repr(d),
-                                'observed': [k[3], k[4]], 'verdict': v})
+                               {'script': ob['script'], 'world': ob['world'], 'kind': ob['kind'], 'mode': mode, 'duration': repr(d),
+                                'observed': [k[3], k[4]], 'verdict': v,
+                                'kinds': sorted({o['kind'] for o in power_keys[k]})}))
+    report(ctx, worlds, found)
     ctx.extra['oracle'] = {'distinct_colour_observations': len(ckeys), 'distinct_power_observations': len(pkeys),
                            'integers_equal_to_nearest': exact_agree, 'integers_accepted_within_1e-9_of_a_tie': tol_used}
     ctx.stage('oracle')
@@ -507,6 +515,40 @@ def end_to_end(ctx):
     get_roundtrip(ctx, worlds)
 
 
+def report(ctx, worlds, found):
+    """One counterexample per defect rather than per command kind: a disagreement that shows on
+    the plain `set "light"` / `on "light"` path (or on most kinds) is reported once, without the
+    kind in its signature; one that is specific to some kinds names the kind.  At most ten."""
+    groups = {}
+    for sig, ob, what, payload in found:
+        parts = sig.split('/', 1)[1].split('-')
+        kind = ob['kind']
+        generic = sig.endswith('-not-nearest') or sig.endswith('-out-of-range')
+        base = sig.replace('C07/%s-' % kind, 'C07/', 1) if generic and sig.startswith('C07/%s-' % kind) else sig
+        groups.setdefault(base, []).append((sig, ob, what, payload, generic))
+    n = 0
+    for base, items in groups.items():
+        kinds = {k for it in items for k in it[3].get('kinds', [it[1]['kind']])}
+        if items[0][4] and ('light' in kinds or 'p-light' in kinds or len(kinds) >= 4):
+            chosen = [min(items, key=lambda it: (it[1]['kind'] not in ('light', 'p-light'), it[1]['ci']))]
+            sigs = [base]
+        else:
+            seen, chosen, sigs = set(), [], []
+            for it in items:
+                if it[0] not in seen:
+                    seen.add(it[0])
+                    chosen.append(it)
+                    sigs.append(it[0])
+        for sig, it in zip(sigs, chosen):
+            if n >= 10:
+                return
+            n += 1
+            payload = dict(it[3])
+            payload['script'] = minimal(worlds, it[1])
+            payload['kinds_affected'] = sorted(kinds)
+            ctx.counterexample(sig, it[2], payload)
+
+
 def minimal(worlds, ob):
     """The smallest script that shows the same observation (falls back to the full one)."""
     mode, color, d, t = ob['case']
@@ -572,7 +614,7 @@ def non_finite(ctx, worlds):
                                 okc = all(isinstance(v, int) and 0 <= v <= 0xffff for v in nums[:-1])
                                 okd = isinstance(dur, int) and 0 <= dur <= 0xffffffff
                                 if not (okc and okd):
-                                    ctx.counterexample('C07/%s-%s-non-finite-out-of-range' % (k, mode),
+                                    ctx.counterexample('C07/%s-non-finite-out-of-range' % mode,
                                                        'registers %s/%s in %s units: light %s is handed %r' % (a, b, mode, name, e),
                                                        {'script': src, 'world': wk})
     ctx.extra['non_finite_scripts'] = n
@@ -617,7 +659,13 @@ def run(ctx):
                         'the two are related by the oracle runs, not by a theorem (DESIGN section 9)']
     ctx.exhaustive = True      # the raw-value sweeps are complete: 65 536 values per component
     if ctx.model_runnable:
-        translator_validation(ctx)
+        try:
+            translator_validation(ctx)
+        except Exception:
+            # e.g. a Python original that raises where the translated function is total; the
+            # end-to-end runs below then look for an input on which the property itself fails
+            import traceback
+            ctx.broken_tie('correspondence', 'translator-validation raised', traceback.format_exc()[-2000:])
         ctx.stage('translator-validation')
     end_to_end(ctx)
     ctx.stage('end-to-end')
